@@ -128,7 +128,8 @@ def install_json_hooks(stubs):
 
     class H(jsonpickle.handlers.BaseHandler):
         def flatten(self, obj, data):
-            return _enc(obj)
+            data["$sym"] = _enc(obj)["$sym"]          # keeps the py/object tag, so jsonpickle.loads restores the proxy
+            return data
 
         def restore(self, data):
             return _REG[data["$sym"]]
